@@ -3,7 +3,7 @@
    The pinned tree registered the match-everything entry before parsing; see C08_refuted_on_pinned_tree. *)
 From Coq Require Import List NArith ZArith Bool.
 From BE Require Import Model.GoTypes Model.GoVal Model.Parsers Model.Index Proofs.BuilderProof Proofs.NoTrace.
-From BE Require Gen.IdsGen.
+From BE Require Gen.IdsGen Model.Spec Proofs.IndexCorrect Proofs.SpecBridge Proofs.IndexCorrectPolicy Proofs.HoldersBuildInv Proofs.IndexCorrectHolders Proofs.IndexCorrectHoldersPolicy.
 Import ListNotations.
 Local Open Scope Z_scope.
 
@@ -62,9 +62,120 @@ Theorem C08_refuted_on_pinned_tree :
   b_z (fst (add_document false st0 bad_excl_doc)) = [].
 Proof. vm_compute. repeat split. discriminate. Qed.
 
+(* THE PROPERTY END TO END, EVERY POLICY AND EVERY OUTCOME (Proofs/IndexCorrectPolicy.v; default-container fields):
+   no hypothesis that documents are accepted or that conjunctions parse.  For any document list with distinct ids
+   -- documents may be rejected (no / too many conjunctions, id out of range), may contain conjunctions that do
+   not parse at any position -- under Skip, Error or Panic, the concrete retrieval on the built index reports, as
+   a multiset of (document, position, size), EXACTLY the specification's sat_hits, where the specification
+   (Model/Spec.v: doc_sem / indexed_conjs) says which conjunctions are indexed: under Skip every conjunction that
+   denotes, under Error/Panic those before the document's first conjunction that does not.  So the index never
+   returns a document for an assignment that satisfies none of its successfully indexed conjunctions.
+   (sizes_ok: fewer than 256 include fields per conjunction, else the id codec refuses -- C11;
+    skip_ok: under Skip no expression makes the holder PANIC rather than return an error, i.e. no operator
+    other than `in` on a default-container field: the code panics on those under every policy, DESIGN §7.) *)
+Theorem C08_hits_are_the_specifications_every_policy : forall kind pol thr parsers ds st os q,
+  add_documents false (new_builder kind pol thr parsers) ds = (st, os) ->
+  NoDup (map d_id ds) -> (forall d cj, In d ds -> In cj (d_conjs d) -> NoDup (map fst cj)) ->
+  (forall d, In d ds -> SpecBridge.doc_good parsers d) ->
+  IndexCorrectPolicy.sizes_ok ds -> IndexCorrectPolicy.skip_ok pol parsers ds ->
+  NoDup (map fst q) -> SpecBridge.asg_good parsers q ->
+  exists hits spec_hits,
+    retrieve_hits (build_index st) q = ROk hits /\
+    Spec.sat_hits [] parsers pol Spec.pl_docok ds q = Some spec_hits /\
+    Permutation.Permutation (map (fun h : hitrec => SpecBridge.triple (snd h)) hits) spec_hits /\
+    NoDup (map snd hits).
+Proof. exact IndexCorrectPolicy.index_sat_hits_policy. Qed.
+
+(* conjunction by conjunction: reported iff INDEXED (document admitted; the conjunction denotes; under Error/Panic so
+   do all conjunctions before it) and satisfied; positions are those of the original document *)
+Theorem C08_reported_iff_indexed_and_satisfied : forall kind pol thr parsers ds st os q,
+  add_documents false (new_builder kind pol thr parsers) ds = (st, os) ->
+  NoDup (map d_id ds) -> (forall d cj, In d ds -> In cj (d_conjs d) -> NoDup (map fst cj)) ->
+  (forall d, In d ds -> SpecBridge.doc_good parsers d) ->
+  IndexCorrectPolicy.sizes_ok ds -> IndexCorrectPolicy.skip_ok pol parsers ds ->
+  NoDup (map fst q) -> SpecBridge.asg_good parsers q ->
+  exists hits, retrieve_hits (build_index st) q = ROk hits /\ NoDup (map snd hits) /\
+    (forall d k cj cid, IndexCorrect.has_conj ds d k cj cid ->
+       (In cid (map snd hits) <-> IndexCorrectPolicy.s_indexed pol parsers d k cj /\ IndexCorrectPolicy.sat_spec parsers q cj)) /\
+    (forall d k cj, In d ds -> IndexCorrectPolicy.s_indexed pol parsers d k cj -> exists cid, IndexCorrect.has_conj ds d k cj cid) /\
+    (forall h, In h hits -> fst h = IdsGen.ConjID_DocID (snd h) /\
+       exists d k cj, IndexCorrect.has_conj ds d k cj (snd h) /\ IndexCorrectPolicy.s_indexed pol parsers d k cj /\
+                      IndexCorrectPolicy.sat_spec parsers q cj).
+Proof. exact IndexCorrectPolicy.index_correct_policy. Qed.
+
+(* what AddDocument answers: an error for a document without / with too many conjunctions, a panic for an id out of
+   range, success when every conjunction denotes, else what the policy says (Skip: success) *)
+Theorem C08_outcomes : forall kind pol thr parsers ds st os,
+  add_documents false (new_builder kind pol thr parsers) ds = (st, os) ->
+  (forall d, In d ds -> SpecBridge.doc_good parsers d) -> IndexCorrectPolicy.sizes_ok ds -> IndexCorrectPolicy.all_eq ds ->
+  os = map (IndexCorrectPolicy.spec_out pol parsers) ds.
+Proof. exact IndexCorrectPolicy.outcomes_policy_eq. Qed.
+
+(* under Skip the documents' other conjunctions behave exactly as if the bad ones had not been supplied: the index
+   built from the documents with their unparseable conjunctions removed returns the same documents for every query *)
+Theorem C08_skip_as_if_not_supplied : forall kind thr parsers ds st os st' os' q,
+  add_documents false (new_builder kind PolSkip thr parsers) ds = (st, os) ->
+  add_documents false (new_builder kind PolSkip thr parsers) (map (IndexCorrectPolicy.strip parsers) ds) = (st', os') ->
+  NoDup (map d_id ds) -> (forall d cj, In d ds -> In cj (d_conjs d) -> NoDup (map fst cj)) ->
+  (forall d, In d ds -> Z.of_nat (length (d_conjs d)) <= 255) ->
+  (forall d, In d ds -> SpecBridge.doc_good parsers d) ->
+  IndexCorrectPolicy.sizes_ok ds -> IndexCorrectPolicy.skip_ok PolSkip parsers ds ->
+  NoDup (map fst q) -> SpecBridge.asg_good parsers q ->
+  retrieve (build_index st') q = retrieve (build_index st) q.
+Proof. exact IndexCorrectPolicy.skip_strip_retrieve_spec. Qed.
+
+(* documents rejected outright leave no trace: any start state, either tree, every query *)
+Theorem C08_rejected_documents_leave_no_trace : forall wf st0 ds q,
+  retrieve_hits (build_index (fst (add_documents wf st0 (filter Spec.pl_docok ds)))) q =
+  retrieve_hits (build_index (fst (add_documents wf st0 ds))) q /\
+  retrieve (build_index (fst (add_documents wf st0 (filter Spec.pl_docok ds)))) q =
+  retrieve (build_index (fst (add_documents wf st0 ds))) q.
+Proof. exact IndexCorrectPolicy.rejected_no_trace_retrieve. Qed.
+
+(* the same for builders with any mix of default, pattern and range containers, against the per-container hit rule
+   (xm_indexed: the conjunction parses and, under Error/Panic, so do the ones before it) *)
+Theorem C08_any_container_every_policy : forall kind pol thr parsers cfgl st0 ds st os q,
+  HoldersBuildInv.config_fields (new_builder kind pol thr parsers) cfgl = Some st0 ->
+  add_documents false st0 ds = (st, os) -> NoDup (map d_id ds) ->
+  (forall d cj, In d ds -> In cj (d_conjs d) -> NoDup (map fst cj)) ->
+  (forall d cj, In d ds -> In cj (d_conjs d) -> HoldersBuildInv.conj_rwf thr (HoldersBuildInv.cfg_of cfgl) cj) ->
+  NoDup (map fst q) ->
+  (forall f v, In (f, v) q -> IndexCorrectHolders.qv_ok (HoldersBuildInv.cfg_of cfgl f) (parsers f) v = true) ->
+  (kind = IKGroups -> forall f v, In (f, v) q -> HoldersBuildInv.cfg_of cfgl f = CAc -> IndexCorrectHolders.nil_slice_wf v) ->
+  let cres := IndexCorrectHoldersPolicy.gconj_res thr parsers (HoldersBuildInv.cfg_of cfgl) in
+  os = IndexCorrectPolicy.xouts pol cres ds /\
+  exists hits, retrieve_hits (build_index st) q = ROk hits /\ NoDup (map snd hits) /\
+    (forall x, In x (map snd hits) <->
+       exists cj, In (x, cj) (IndexCorrectPolicy.xidb pol cres ds) /\
+                  IndexCorrectHolders.conj_sat' parsers (HoldersBuildInv.cfg_of cfgl) q cj = true) /\
+    (forall d k cj cid, IndexCorrect.has_conj ds d k cj cid ->
+       (In cid (map snd hits) <-> IndexCorrectPolicy.xm_indexed pol cres d k cj /\
+                                  IndexCorrectHolders.conj_sat' parsers (HoldersBuildInv.cfg_of cfgl) q cj = true)) /\
+    (forall h, In h hits -> fst h = IdsGen.ConjID_DocID (snd h) /\
+       exists d k cj, IndexCorrect.has_conj ds d k cj (snd h) /\ IndexCorrectPolicy.xm_indexed pol cres d k cj /\
+                      IndexCorrectHolders.conj_sat' parsers (HoldersBuildInv.cfg_of cfgl) q cj = true).
+Proof. exact IndexCorrectHoldersPolicy.index_correct_holders_policy. Qed.
+
+(* non-vacuity: five documents (an unparseable middle conjunction, an unparseable first conjunction, an id out of
+   range, no conjunctions, a clean one) meet every hypothesis, for every index kind and policy *)
+Example C08_nonvacuous : forall kind pol st os,
+  add_documents false (new_builder kind pol 256 IndexCorrectPolicy.PolicyWitness.ps) IndexCorrectPolicy.PolicyWitness.docs = (st, os) ->
+  (exists hits spec_hits,
+     retrieve_hits (build_index st) IndexCorrectPolicy.PolicyWitness.qq = ROk hits /\
+     Spec.sat_hits [] IndexCorrectPolicy.PolicyWitness.ps pol Spec.pl_docok IndexCorrectPolicy.PolicyWitness.docs IndexCorrectPolicy.PolicyWitness.qq = Some spec_hits /\
+     Permutation.Permutation (map (fun h : hitrec => SpecBridge.triple (snd h)) hits) spec_hits /\ NoDup (map snd hits)) /\
+  os = map (IndexCorrectPolicy.spec_out pol IndexCorrectPolicy.PolicyWitness.ps) IndexCorrectPolicy.PolicyWitness.docs.
+Proof. exact IndexCorrectPolicy.PolicyWitness.applies. Qed.
+
 Print Assumptions C08_bad_conj_no_wildcard.
 Print Assumptions C08_bad_conj_no_trace.
 Print Assumptions C08_document_adds_only_entries_of_parsing_conjunctions.
 Print Assumptions C08_error_and_panic_leave_the_same_state.
 Print Assumptions C08_rejected_unchanged.
 Print Assumptions C08_refuted_on_pinned_tree.
+Print Assumptions C08_hits_are_the_specifications_every_policy.
+Print Assumptions C08_reported_iff_indexed_and_satisfied.
+Print Assumptions C08_outcomes.
+Print Assumptions C08_skip_as_if_not_supplied.
+Print Assumptions C08_rejected_documents_leave_no_trace.
+Print Assumptions C08_any_container_every_policy.
